@@ -490,6 +490,7 @@ func applyEdit(r *rng.R, s *Schema, kind string, ti int) bool {
 		}
 		if t.Strict && affinity(c.Type) != "integer" {
 			c.Type = "integer"
+			c.Default = "5"
 		}
 		t.Cols = append(t.Cols, c)
 	case "add-col-notnull-default":
